@@ -274,6 +274,7 @@ func (s *sys) Apply(st runh.Step) (string, []runh.Viol, int) {
 	writeError := st.V > 0 && s.proxy.CrashMode == "error" // the write fails, the process goes on
 
 	var startErr error
+	probed := false
 	decidedNew := 0 // height newly learned as decided by this (completed) event
 	var digBefore [32]byte
 	if e.kind == kStart {
@@ -295,7 +296,13 @@ func (s *sys) Apply(st runh.Step) (string, []runh.Viol, int) {
 		case kStart:
 			startErr = s.w.V.StartDuty(s.w.Log, runh.Duty(role, phase0.Slot(e.h)))
 		case kStartInst:
-			startErr = ctrl.StartNewInstance(s.w.Log, specqbft.Height(e.h), runh.ConsensusValue(role, phase0.Slot(e.h), runh.Valid))
+			// a probe: only for heights the controller must refuse (a refusal has no side effects).
+			// Above the limit the call would start an instance behind the runner's back - a state the
+			// node cannot be in (decide() runs with a running duty), e.g. a local decision nobody saves.
+			if e.h <= maxi(s.started, s.learned) {
+				probed = true
+				startErr = ctrl.StartNewInstance(s.w.Log, specqbft.Height(e.h), runh.ConsensusValue(role, phase0.Slot(e.h), runh.Valid))
+			}
 		case kRestart:
 			// handled below
 		default:
@@ -366,18 +373,14 @@ func (s *sys) Apply(st runh.Step) (string, []runh.Viol, int) {
 				s.started = maxi(s.started, e.h)
 			}
 		case kStartInst:
-			limit := maxi(s.started, s.learned)
 			switch {
-			case e.h <= limit && startErr == nil:
+			case !probed:
+				out = "startInstance:above-limit(not probed)"
+			case startErr == nil:
 				bad("consensus instance started for a height at or below the highest started/decided height", fmt.Sprintf("%s accepted although started=%d learned-decided=%d", e.name, s.started, s.learned), "nil error", "refused")
 				out = "startInstance:accepted-below-limit"
-			case e.h <= limit:
-				out = "startInstance:refused"
-			case startErr == nil:
-				out = "startInstance:ok"
-				s.started = maxi(s.started, e.h)
 			default:
-				out = "startInstance:refused-above-limit"
+				out = "startInstance:refused"
 			}
 		case kCert:
 			decidedNew = e.h
